@@ -15,18 +15,22 @@ META = dict(
          'tables as pickle and as HITRAN text with one or two wavenumber ranges covering different temperatures; (4) '
          'random strings through sanitize_molecule_string; (5) histories of 4..14 cache operations (get, set '
          'interpolation, set memory mode, clear, switch path, add) on directories holding up to three molecules in '
-         'up to two formats; non-trivial = every case; distinct by content',
+         'up to two formats; the same histories against KTableCache (pickle / HDF5 k-tables, mode changed through '
+         'OpacityCache.set_interpolation); (6) histories of 4..12 operations (get, switch path, add) on CIACache with '
+         'directories holding each pair as .db, .cia, both or neither; non-trivial = every case; distinct by content',
     trusted=['astropy for the value of the declared pressure unit in Pa; h5py / pickle as containers; Python re for the '
              'comparison of the name sanitiser'],
     modelled=['PickleOpacity._load_pickle_file, HDF5Opacity._load_hdf_file, ExoTransmitOpacity._load_exo_transmit, '
               'HitranCIA.load_hitran_file / fill_gaps / compute_final_grid, sanitize_molecule_string, '
               'OpacityCache.__getitem__ / add_opacity / load_opacity_from_path / set_interpolation / set_memory_mode / '
-              'clear_cache; the k-table readers and PickleCIA are compared with each other and with the written table '
-              'only'],
+              'clear_cache; KTableCache.__getitem__ / add_opacity / load_opacity_from_path / clear_cache (same state '
+              'machine); CIACache.__getitem__ / add_cia / load_cia_from_path / set_cia_path; the k-table readers and '
+              'PickleCIA are compared with each other and with the written table only'],
     assumptions=['wavenumbers of a file are pairwise distinct; HITRAN records of one range share one grid; a CIA file holds at least two temperatures',
                  'Exo-Transmit: the reader adds 1e-60 m2 to every value by design; tolerance 1e-55 cm2 absolute',
                  'a molecule is held by at most one reader class of equal priority (pickle and Exo-Transmit readers have '
                  'the same priority and are kept in a Python set, so which wins is not defined by the code)',
+                 'at most one .db and one .cia file per pair and directory (glob order among several is not defined)',
                  'HDF5 cross-section files carry the plain molecule name in mol_name (see known finding)',
                  'tolerance 1e-12 relative against the exact rational model'],
 )
@@ -565,6 +569,113 @@ def part_cache(ctx, tmp, kt=False):
             ctx.validated()
 
 
+def part_ciacache(ctx, tmp):
+    """operation histories against CIACache: directories holding a pair as pickle (.db), HITRAN (.cia), both or not at
+    all; requests, path changes, objects added by hand"""
+    from taurex.cache import CIACache
+    from taurex.cia.picklecia import PickleCIA
+    rng = ctx.rng
+    pairs = ['H2-H2', 'H2-He', 'N2-N2']
+    exprs, metas = [], []
+
+    def write_db(path, v):
+        with open(path, 'wb') as f:
+            pickle.dump(dict(t=np.array([100.0, 1000.0]), wno=np.array([10.0, 20.0, 30.0]), xsecarr=np.full((2, 3), v)), f)
+
+    def write_hitran(path, pair, v):
+        with open(path, 'w') as f:
+            for t in (100.0, 1000.0):
+                f.write('%20s%10.3f%10.3f%7d%7.1f%10.3e\n' % (pair, 10.0, 30.0, 3, t, v * 1e10))
+                for w in (10.0, 20.0, 30.0):
+                    f.write('%r %r\n' % (w, v * 1e10))
+
+    for n in range(ctx.n(10, 100)):
+        dirs, fid, sig = [], 0, {}
+        for dn in range(2):
+            d = os.path.join(tmp, 'cia%d_%d' % (n, dn))
+            os.makedirs(d)
+            files = []
+            for pi, pair in enumerate(pairs):
+                kind = rng.choice(['none', 'db', 'cia', 'both', 'both'])
+                if kind in ('db', 'both'):
+                    v = 10 ** rng.uniform(-50, -40)
+                    write_db(os.path.join(d, pair + '.db'), v)
+                    files.append((pi, False, fid)); sig[fid] = v; fid += 1
+                if kind in ('cia', 'both'):
+                    v = 10 ** rng.uniform(-50, -40)
+                    write_hitran(os.path.join(d, pair + '_2011.cia'), pair, v)
+                    files.append((pi, True, fid)); sig[fid] = v; fid += 1
+            dirs.append((d, files))
+        ops, lits, cur = [], [], None
+        for k in range(rng.randint(4, 12)):
+            o = rng.choice(['get', 'get', 'get', 'path', 'add']) if cur is not None else 'path'
+            if o == 'get':
+                pi = rng.randrange(3)
+                ops.append(('get', pi)); lits.append('CGet %d' % pi)
+            elif o == 'path':
+                cur = rng.randrange(2)
+                ops.append(('path', cur))
+                lits.append('CSetPath %s' % C.clist(['{| cf_pair := %d; cf_hitran := %s; cf_id := %d |}'
+                                                    % (p_, C.boollit(h_), f_) for p_, h_, f_ in dirs[cur][1]]))
+            else:
+                pi = rng.randrange(3)
+                v = 10 ** rng.uniform(-50, -40)
+                os.makedirs(os.path.join(tmp, 'cia_adds'), exist_ok=True)
+                pth = os.path.join(tmp, 'cia_adds', '%s_%d_%d.db' % (pairs[pi], n, k))
+                write_db(pth, v)
+                ops.append(('add', pi, pth)); lits.append('CAdd %d %d' % (pi, fid)); sig[fid] = v; fid += 1
+        cc = CIACache()
+        cc.cia_dict = {}
+        cc.set_cia_path(None)
+        ids, outs = {}, []
+        try:
+            for op in ops:
+                if op[0] == 'get':
+                    try:
+                        ob = cc[pairs[op[1]]]
+                        first = float(np.asarray(ob._xsec_grid).ravel()[0])
+                        fidx = [f_ for f_, s_ in sig.items() if abs(s_ - first) <= 1e-9 * abs(first)]
+                        outs.append([1, ids.setdefault(id(ob), len(ids)), pairs.index(ob.pairName) if ob.pairName in pairs else -1,
+                                     fidx[0] if len(fidx) == 1 else -1, ob])
+                    except Exception as e:
+                        outs.append([2] if 'could notn be loaded' in str(e) else [4, repr(e)])
+                elif op[0] == 'path':
+                    cc.set_cia_path(dirs[op[1]][0])
+                    outs.append([0])
+                else:
+                    try:
+                        cc.add_cia(PickleCIA(op[2], pairs[op[1]]))
+                        outs.append([0])
+                    except Exception as e:
+                        outs.append([3] if 'already exists' in str(e) else [4, repr(e)])
+        finally:
+            cc.cia_dict = {}
+            cc.set_cia_path(None)
+        exprs.append('run_ciacache %s' % C.clist(lits))
+        metas.append(dict(outs=outs, nops=len(ops),
+                          rp=dict(part='CIA cache history', operations=[o[:2] for o in ops],
+                                  directories=[[(pairs[p_], 'cia' if h_ else 'db', f_) for p_, h_, f_ in fl] for _, fl in dirs])))
+    for mt, out in zip(metas, C.run_cases('C14i', HEADER, exprs, shard=40)):
+        bad, remap = None, {}
+        for k, (i, m) in enumerate(zip(mt['outs'], out)):
+            if i[0] != m[0]:
+                bad = 'operation %d: implementation %r, model %r' % (k, i[:4], m)
+                break
+            if i[0] == 1:
+                if i[2:4] != m[2:4]:
+                    bad = 'operation %d serves (pair, file) %r, model %r' % (k, i[2:4], m[2:4])
+                    break
+                if remap.setdefault(m[1], i[1]) != i[1] or list(remap.values()).count(i[1]) > 1:
+                    bad = 'operation %d: object identity differs from the model (loaded twice, or another object served)' % k
+                    break
+        ctx.case(('I', repr(mt['rp']['operations']), repr(mt['rp']['directories'])), nontrivial=True,
+                 sample=dict(part='CIA cache history', operations=mt['nops'], served=sum(1 for o in mt['outs'] if o[0] == 1)))
+        if bad:
+            ctx.violation('cia-cache-history', 'CIA cache: ' + bad, replay=mt['rp'])
+        else:
+            ctx.validated()
+
+
 def run(ctx):
     tmp = os.path.join(C.CACHE, 'c14_%d' % os.getpid())
     os.makedirs(tmp, exist_ok=True)
@@ -575,6 +686,7 @@ def run(ctx):
         part_names(ctx)
         part_cache(ctx, tmp)
         part_cache(ctx, tmp, kt=True)
+        part_ciacache(ctx, tmp)
     finally:
         import shutil
         shutil.rmtree(tmp, ignore_errors=True)
